@@ -1184,6 +1184,12 @@ func (c *apkCache) get(ctx context.Context, a *APK, pkg InstallablePackage) (*ex
 	}
 
 	result := v.(apkResult)
+	if result.err != nil {
+		// Failures are not kept: a transient error (one failed download) must not fail this
+		// package for every later build of the process. Forgetting the once makes the next
+		// caller expand again; callers that shared this once have all been handed its error.
+		c.onces.CompareAndDelete(u, once)
+	}
 	return result.exp, result.err
 }
 
